@@ -115,7 +115,7 @@ def run(desc, ctx):
 
 
 SUBS = [
-    Sub("mixed", run, strategy=lambda tier: cnf.mixed(tier), quick=800, thorough=12000, workers_quick=4),
-    Sub("deep", run, strategy=lambda tier: cnf.deep_cnf(10, 13 if tier == "thorough" else 12), quick=6, thorough=20, workers_quick=4, case_timeout=300),
+    Sub("mixed", run, strategy=lambda tier: cnf.mixed(tier), quick=800, thorough=8000, workers_quick=4),
+    Sub("deep", run, strategy=lambda tier: cnf.deep_cnf(10, 13 if tier == "thorough" else 12), quick=6, thorough=12, workers_quick=4, case_timeout=300),
 ]
 AMPLIFY = [("mixed", 15000, 4)]  # (sub-check, executions, parallel copies) for the thorough tier (vf/fuzz.py)
